@@ -195,6 +195,14 @@ func c15Run(c *runner.Ctx) {
 				log = append(log, fmt.Sprintf("persist(seg%d)", si))
 				c.Inc("ops.persist", 1)
 			}
+		case op < 9 && step%3 == 0: // an unrelated build (recycles the builder's pooled state; must not touch existing segments)
+			other := gen.GenBatch(r, gen.GenSchema(r), 1+r.Intn(30), fmt.Sprintf("o%d.%d", c.Idx, step), gen.DocOpts{Repeat: true})
+			if _, err := gen.BuildSeg(other, gen.Mode(r, 30)); err != nil {
+				c.Note("build failed (C01's business): " + firstLine(err.Error()))
+				return
+			}
+			log = append(log, "build(unrelated batch)")
+			c.Inc("ops.unrelated_build", 1)
 		default: // full observation (stored fields, doc values, dictionaries)
 			observe.Observe(sg.S, model.All)
 			log = append(log, fmt.Sprintf("observe(seg%d)", si))
